@@ -150,7 +150,7 @@ def crash_case(rng, big, S=None, d=None, k=None, j=None, mask=None, oldops=None,
     ops += oldops
     ops.append(f"probe {sid}")
     ip = len(ops) - 1
-    ops.append(f"csave {sid} {t} {hexs(d)} {k} {j} {S} {mask}")
+    ops.append(f"{'ksave' if rng.random() < 0.2 else 'csave'} {sid} {t} {hexs(d)} {k} {j} {S} {mask}")
     ops.append("ls")
     if rng.random() < 0.25:
         ops.append("gc")
@@ -264,7 +264,7 @@ def seq_case(rng, big):
             S = rng.choice((512, 512, 64))
             idx = [i for i in range(8) if rng.random() < 0.5]
             mask = rng.choice(("all", ",".join(map(str, idx)) if idx else "-"))
-            ops.append(f"csave {sid} {now + rng.choice((-3, 0, 2, 50, 5000))} {hexs(d)} {k} {j} {S} {mask}")
+            ops.append(f"{rng.choice(('csave', 'csave', 'ksave'))} {sid} {now + rng.choice((-3, 0, 2, 50, 5000))} {hexs(d)} {k} {j} {S} {mask}")
         elif r < 0.7:
             ops.append(f"load {sid}")
             ops.append("ls")
@@ -352,7 +352,7 @@ def judge(c, model, cases, metas, out_i):
                 now = int(op[1])
             elif op[0] == "put":
                 tainted.add(op[1])
-            elif op[0] in ("save", "csave"):
+            elif op[0] in ("save", "csave", "ksave"):
                 saved.setdefault(op[1], set()).add((int(op[2]), op[3]))
             elif op[0] == "load":
                 njudged += 1
@@ -410,7 +410,7 @@ def nontrivial_key(meta, line, mout):
         left = 0 if mout.endswith("| -") else len(mout.split(" | ")[-1].split(","))
         return line if left < ents else None
     if meta.get("kind") == "seq":
-        return line if "csave" in line else None
+        return line if "csave" in line or "ksave" in line else None
     return line
 
 
